@@ -596,6 +596,29 @@ func (sc *serverConn) handleStreams() {
 
 	defer releaseHandled()
 
+	// The responses the loop still holds when it stops are never going to be
+	// sent. Whatever is behind a body stream of theirs (a file, the pipe of a
+	// stream writer whose goroutine sits in a write to it) stays open unless it
+	// is closed here. A stream whose handler is still running is the handler's:
+	// its goroutine closes what it produced when it finds the loop gone. Deferred
+	// before handlerStop is, so that it runs after that channel is closed and a
+	// handler that finishes meanwhile either reports here or sees it closed.
+	defer func() {
+		for _, strm := range strms {
+			sc.dropResponse(strm)
+		}
+
+		for {
+			select {
+			case strm := <-sc.handlerDone:
+				strm.handlerRunning = false
+				sc.dropResponse(strm)
+			default:
+				return
+			}
+		}
+	}()
+
 	// Handlers that are still running when the loop stops have nowhere to
 	// report back to, and would otherwise park on handlerDone for good.
 	defer close(sc.handlerStop)
@@ -1685,6 +1708,9 @@ func (sc *serverConn) dispatchHandler(strm *Stream) {
 			select {
 			case sc.handlerDone <- strm:
 			case <-sc.handlerStop:
+				// Nobody is left to send the response, or to close a body
+				// stream the handler put in it.
+				_ = ctx.Response.CloseBodyStream()
 			}
 		}()
 
@@ -1775,6 +1801,18 @@ func (sc *serverConn) refillPending(strm *Stream) error {
 	}
 
 	return nil
+}
+
+// dropResponse closes the body stream of a response that will not be sent. The
+// stream loop calls it for what it still holds when it stops.
+func (sc *serverConn) dropResponse(strm *Stream) {
+	if strm.handlerRunning || strm.ctx == nil {
+		return
+	}
+
+	sc.closeBodyStream(strm)
+
+	_ = strm.ctx.Response.CloseBodyStream()
 }
 
 // closeBodyStream releases a streamed response body. fasthttp hands out the
